@@ -2,6 +2,7 @@
 
 uint64_t vf_inlog[VF_NLOG];
 uint64_t vf_trace_sum;
+uint64_t vf_trace_vsum;
 unsigned vf_inlog_n;
 
 #ifndef VF_SEQ
@@ -495,6 +496,11 @@ _Bool vf_uncaught_exception(void) { return 0; }
 void vf_global_ctors(void);
 void vf_main(void);
 void vf_entry(void) {
+#ifdef VF_TRACE_RUN
+  /* symbolic start values: no increment of the trace sums is constant-folded away */
+  vf_trace_sum = nondet_u64();
+  vf_trace_vsum = nondet_u64();
+#endif
   vf_global_ctors();
   vf_main();
   /* observer */
